@@ -198,6 +198,38 @@ A = {
  'C19e-serialize-pooled-buffer-released-early': dict(what='persist Serialize: pooled buffer returned to the pool before its bytes are stored', needs='two sessions saving at the same time', history='caught at once (race detector, transcripts)'),
  'C20e-omitempty-code-execpath': dict(what='cbor omitempty on State.Code and ExecPath', needs='unflushed kept persister, ended session loaded after a session in mid-menu',
     history='caught at once by C07 (C07_Reuse); C20 has no kept-persister stage'),
+ # ---- round 6
+ 'C01f-final-render-not-audited': dict(what='render/page.go render/prepare: the size audit of the final render removed, only the pre-render is audited', needs='sink node with a long later row or a nearly full fixed part', history='caught at once (C01_Fits)'),
+ 'C02f-sink-needs-room-for-both-browse-entries': dict(what='render/page.go prepare: refuses a sink of 2+ rows unless both browse entries would fit', needs='rows that fit on page 0 with less than next+previous+4 bytes to spare',
+    history='initially MISSED (no clause said that content which fits must be shown). Fixed by: C02_FitsThenShown (one-page length computed by the recorder) - which found the same refusal in the ORIGINAL for single rows and exact fits (KF-render-conservative-capacity, excused only where the real pages equal the pinned algorithm)'),
+ 'C03f-named-move-refused-anywhere-on-stack': dict(what='vm/input.go applyTarget: "already at node" when the target is anywhere on the stack', needs='depth >= 2 and a named move to a node below the top (incl. the implicit MOVE _catch)',
+    history='the engine then loops; the driver reported the hang but the orchestrator died on the missing summary field (exit 2, not a verdict). Fixed by: a hang summary is no longer fatal; caught (C04_ReqNav, C03_Step)'),
+ 'C04f-failed-previous-does-not-consume-input': dict(what='vm/runner.go runInCmp: INMATCH set only after applyTarget succeeded', needs='INCMP < before a matching INCMP, page 0, input = previous selector', history='caught at once (C04_ReqNav, C03_Step)'),
+ 'C05f-map-skips-refresh-of-mapped-symbol': dict(what='render/page.go Map: early return for an already mapped symbol (stale value after RELOAD)', needs='RELOAD of a mapped symbol followed by MAP', history='caught at once (C05_Load)'),
+ 'C06f-readin-not-cleared-on-later-match': dict(what='vm/runner.go runInCmp: READIN set on a miss, never cleared by a later match', needs='a miss, then a match, then CROAK / end of code',
+    history='caught at once by C03 (C03_Step) and C20 (C20_Outcome); MISSED by C06 (its instruction-level clauses start from the logged flags). Fixed by: C06_ReqCtl (request level: terminated or not, position, client flags follow from what THIS request did with its input)'),
+ 'C07f-fs-get-trims-session-blob': dict(what='db/fs Get: TrimSpace on everything but bytecode (also the stored session)', needs='fs store, last loaded value ending in white space', history='caught at once (C07_Equiv on fs, C10_Result)'),
+ 'C08f-setinput-after-getcode-in-exec': dict(what='engine/db.go: SetInput moved behind the destructive GetCode', needs='initialised long-lived engine, over-long input in valid format',
+    history='MISSED by C08 (C17 caught it: C17_Refused). Fixed by: C08_RefusedContinuable (a refused request leaves the pending code pending)'),
+ 'C09f-push-recycles-frame-and-drops-limits': dict(what='cache/cache.go Push: recycles the map behind the slice end and deletes its Sizes entries', needs='pop then push', history='caught at once (C09_Consistent)'),
+ 'C10f-fs-get-trims-trailing-newlines': dict(what='db/fs Get: trailing newlines trimmed', needs='value ending in a newline', history='caught at once (C10_Result)'),
+ 'C11f-empty-key-not-session-scoped': dict(what='db/db.go ToSessionKey: the empty key is not prefixed with the session', needs='empty key under a session (session selected on the store handle, Config.SessionId empty)',
+    history='initially MISSED (no empty key in the universes). Fixed by: the empty key in the adversarial universe - which found that the fs backend answered the never-written empty key with a read error (fix 8235cca)'),
+ 'C12f-fs-name-sanitizer-merges-sessions': dict(what='db/fs pathFor: reserved characters replaced by _', needs='session ids that differ in one punctuation character',
+    history='initially MISSED by C12 and C11 (ids alice/bob; punctuation only in dots and slashes). Fixed by: punctuation families of ids and keys (every ordered pair) in C11, and the crash-atomicity sessions are 254700000001:7 / 254700000001_7 with the neighbour compared before and after'),
+ 'C13f-failed-put-commits-explicit-tx': dict(what='db/postgres Put: a failed statement ends the transaction with COMMIT', needs='explicit transaction, earlier successful Put, statement failing on the client side (transaction not poisoned)',
+    history='initially MISSED (every failed statement poisoned the transaction, so COMMIT rolled back; later reads fell into the sticky-multi region). Fixed by: soft (client-side) statement failures in PgTx.tla / the fake, the durable content observed after every operation, C13_NoUnackedDurable'),
+ 'C14f-writesize-trims-trailing-zero-bytes': dict(what='asm/asm.go writeSize: bytes.Trim strips low zero bytes', needs='size that is a multiple of 256', history='caught at once (C14_AsmAgrees)'),
+ 'C15f-map-guard-unmasks-dropped-decode-error': dict(what='render/page.go Map: empty key accepted; vm runMap overwrites the decode error', needs='malformed MAP executed by the VM', history='caught at once (C15_RunRejects)'),
+ 'C16f-lexer-splits-underscore-names': dict(what='asm/asm.go lexer: special characters are single-character tokens', needs='the builtin node name _catch in source',
+    history='initially MISSED (no _catch in the symbol universes). Fixed by: _catch as MOVE / INCMP / CATCH / DOWN target in AsmMC and the random sources'),
+ 'C17f-first-skipped-on-refused-input-leaks-frame': dict(what='engine/db.go runFirst: returns before the clean-up when the input will be refused', needs='pre-VM check + input refused by the pattern',
+    history='initially MISSED (applications with a pre-VM check were not judged on refused inputs at all). Fixed by: C17_RefusedFirst (position, cache scopes, pending code, language unchanged; outcome as the model) and program first in C17'),
+ 'C18f-reset-reapplies-config-language': dict(what='engine/db.go reset: Config.Language re-applied when the session starts over', needs='configured language + function-selected other language + graceful end + another request',
+    history='initially MISSED (the end-to-end language stage had no configured language and stopped at the end of the program). Fixed by: half of the applications have Config.Language, a node that ends gracefully, scripted sessions (select, back, end, dial in), C18_LangKept'),
+ 'C19f-interned-language-pointer': dict(what='state SetLanguage: one *Language per code for all states; the cbor decoder writes into it', needs='Config.Language + persister + a session that switched language',
+    history='initially MISSED by C19 and C18 (no configured language anywhere). Fixed by: Config.Language in half of the race histories and the session language in the transcripts (race detector + transcripts); C18 catches it too (C18_LangKept: a new session starts in another session\'s language)'),
+ 'C20f-first-cleanup-deferred-before-blocked-return': dict(what='engine/db.go runFirst: clean-up deferred before the blocked-session return', needs='pre-VM check, blocked session', history='caught at once (C20_Outcome)'),
 }
 for sid, a in A.items():
     mp = os.path.join(V, 'seeded', sid, 'meta.json')
